@@ -21,6 +21,7 @@ CONSTANTS
   PriorityToAllEngines = FALSE
   PruneKeepsEqual = FALSE
   PartialCommit = FALSE
+  UpdateTouchesTruth = FALSE
 INVARIANT OneRecordPerTasking
 INVARIANT NoRecordWithoutTasking
 INVARIANT PointingReflectsTasking
